@@ -1,0 +1,43 @@
+//go:build verif
+
+package hermes
+
+// Exported wrappers for the verification harness (property C04, weather input). Add-only; nothing
+// here is compiled without the build tag `verif`.
+
+// VerifReplaceMissingValues calls replaceMissingValues on the first yrz years.
+func (s *WeatherDataShared) VerifReplaceMissingValues(yrz int, noneValue float64) {
+	s.replaceMissingValues(yrz, noneValue)
+}
+
+// VerifTransformWeatherData calls transformWeatherData on the first yrz years with the 12 monthly factors.
+func (s *WeatherDataShared) VerifTransformWeatherData(yrz int, corr []float64) {
+	s.transformWeatherData(yrz, corrArr(corr))
+}
+
+// VerifCorrValue is getCorrValue: the monthly factor used for day-of-year T.
+func VerifCorrValue(corr []float64, T int) float64 { return corrArr(corr).getCorrValue(T) }
+
+// VerifWeatherFlags are the flags for optional columns.
+type VerifWeatherFlags struct {
+	WINDHI, ALTITUDE, CO2KONZ, VERD, SUND, ETNULL bool
+}
+
+// VerifFlags returns the optional-column flags.
+func (s *WeatherDataShared) VerifFlags() VerifWeatherFlags {
+	return VerifWeatherFlags{s.hasWINDHI, s.hasALTITUDE, s.hasCO2KONZ, s.hasVERD, s.hasSUND, s.hasETNULL}
+}
+
+// VerifSetFlags sets the optional-column flags.
+func (s *WeatherDataShared) VerifSetFlags(f VerifWeatherFlags) {
+	s.hasWINDHI, s.hasALTITUDE, s.hasCO2KONZ, s.hasVERD, s.hasSUND, s.hasETNULL = f.WINDHI, f.ALTITUDE, f.CO2KONZ, f.VERD, f.SUND, f.ETNULL
+}
+
+// VerifYearToExtension is yearToExtension: file extension of the year file for J = year - 1900.
+func VerifYearToExtension(j int) string { return yearToExtension(j) }
+
+// VerifVWdat returns the year-file name for J = year - 1900 given the name without extension.
+func VerifVWdat(noExt string, j int) string {
+	hp := HFilePath{vwdatNoExt: noExt}
+	return hp.VWdat(j)
+}
